@@ -28,10 +28,15 @@ def readJ : Except Err (Option Int) → Json
   | .ok (some t) => toJson t
   | .error e => Json.str ("ERR:" ++ e.toString)
 
+/-- the stamps as the getters of the source report them (`observe`) -/
+def obsJ : Option (Except Err (Option Int)) → Json
+  | some r => readJ r
+  | none => Json.str "ERR:getter outside the model"
+
 def stampsJ (s : State) : Json :=
   Json.arr <| (s.ents.zipIdx.filterMap fun (e, i) =>
     if e.alive then
-      some (Json.arr #[toJson i, readJ (readStamp e.created), readJ (readStamp e.updated)])
+      some (Json.arr #[toJson i, obsJ (observe s i .created), obsJ (observe s i .updated)])
     else none).toArray
 
 def resJ : Res → String
